@@ -17,8 +17,9 @@ child is rejected whatever the replay order, the parent value is not touched; `m
 accepted and the parent takes over the child's root and content); a merge is a sequence of `insertNode`/`deleteNode`
 events on the parent (`merge_is_events`), so the collector algebra and `C04_complete_partial` cover rounds with merges.
 
-NOT proved, and false of the unchanged code for some replay orders (known finding C03-merge-order): that after an
-accepted merge the parent's root resolves in the parent's layered store (`MergeResolves`).
+NOT proved: that after an accepted merge the parent's root resolves in the parent's layered store (`MergeResolves`).
+Before fix 8b1f6ed it was false of the code for some replay orders (corpus/C03/fixed_merge_order.ops); `mergeChanges`
+now replays the changes in the order computed by `orderChanges`, which the model contains literally.
 -/
 import Verif.Lemmas.MptStoreEvents
 import Verif.Lemmas.MptStoreTrie
@@ -124,8 +125,8 @@ example :
 
 /-- The full publication statement: after an accepted merge of a child whose own view resolved, the parent's new root
     resolves in the parent's layered store (`get` = read-through of the parent's level and everything below it).
-    NOT proved; for some replay orders it is false of the unchanged code (known finding C03-merge-order, replay
-    corpus/C03/finding_merge_order.ops: the parent's store loses a live node). -/
+    NOT proved.  (Without `orderChanges` it is false: corpus/C03/fixed_merge_order.ops, the parent's store lost a live
+    node when a re-creation was replayed before the replacement of the same key.) -/
 def MergeResolves : Prop :=
   ∀ (H : Bytes → Bytes) (below : Bytes → Option Bytes) (p c p' : Trie) (changes : List (Change Ref)),
     changes.Perm c.cc.getChanges →
